@@ -241,6 +241,14 @@ pub fn execute(scn: &Scenario, ctx: &mut Ctx) {
                 ctx.violate(Prop::C06, "provenance/outside-consumed", || format!("{}: slice `{}` ({} bytes) of the returned value lies outside the {} consumed bytes of the caller's buffer", kind, label, l, consumed));
             }
         }
+        // nothing outside the structure's declared length is consumed or referenced
+        if let (Some(e), Some((consumed, _, _, _, val))) = (extent, v.as_ref()) {
+            if *consumed != e {
+                ctx.violate(Prop::C06, "provenance/outside-declared", || format!("{}: the structure declares an extent of {} bytes, the parser consumed {} bytes (with {} bytes buffered)", kind, e, consumed, buf.len()));
+            } else if let Some((_, label, _, l)) = visit::first_outside(&slices_of(val), buf.as_ptr() as usize, e) {
+                ctx.violate(Prop::C06, "provenance/outside-declared", || format!("{}: slice `{}` ({} bytes) reaches outside the structure's declared extent of {} bytes", kind, label, l, e));
+            }
+        }
         match &mut settled {
             None => {
                 if !out.is_incomplete() {
